@@ -617,6 +617,11 @@ func runPSeq(w *bufio.Writer, seqW *bufio.Writer, s PSeq) error {
 	if s.Redurable > 0 && len(p.images) > 0 {
 		p.redurable(s)
 	}
+	if s.Mode == "aof" && len(p.images) > 0 {
+		// clean stop, restart, go on (a rewrite first / plain writes in database 0), stop, restart again
+		p.recontinue(s, true)
+		p.recontinue(s, false)
+	}
 	if s.Mode == "snap" {
 		// crash inside a snapshot, restart, write, snapshot again, restart again: the directory must stay usable
 		n := 0
@@ -676,6 +681,64 @@ func (p *pRun) redurable(s PSeq) {
 	q.seq.RestoreAdv = 0
 	im := &image{point: "redurable", op: last.op, now: last.now, files: files2, lo: 0, hi: 0, copyIdx: -1, prevSnap: -1, curSnap: -1}
 	q.emit(fmt.Sprintf("%s.%d.redurable", s.ID, last.op), im, files2, "redurable")
+}
+
+// recontinue: the server was stopped after the last step of the history; a new process restores the log, carries on
+// (optionally a rewrite before anything else, then writes issued by the embedded caller, i.e. in database 0) and is
+// stopped; what a third process restores must be the dataset the second one held.
+func (p *pRun) recontinue(s PSeq, rewriteFirst bool) {
+	last := p.images[len(p.images)-1]
+	if _, ok := last.files["aof/log.aof"]; !ok {
+		return
+	}
+	dir, err := os.MkdirTemp(scratchBase(), "vhr")
+	if err != nil {
+		return
+	}
+	defer os.RemoveAll(dir)
+	if writeTree(dir, last.files) != nil {
+		return
+	}
+	in, err := NewInstAt(Opts{DataDir: dir, AOFSync: s.Sync, RestoreAOF: true}, last.now)
+	if err != nil {
+		return
+	}
+	tag := "recontinue"
+	dcopy, copyNow := "", int64(0)
+	if rewriteFirst {
+		tag = "recontinue-rewrite"
+		// the dataset the preamble of this rewrite encodes: what the restarted process serves before anything else
+		var cerr error
+		if dcopy, cerr = in.Dump(); cerr != nil {
+			in.S.ShutDown()
+			return
+		}
+		copyNow = in.Clock.Ms()
+		if r := execFn(in, func() error { return in.S.VerifRewriteAOF() }); r.Kind != "ok" {
+			in.S.ShutDown()
+			return
+		}
+	}
+	r1 := in.Exec(nil, []string{"set", "after-restart", "1"})
+	r2 := in.Exec(nil, []string{"append", "after-restart-text", "ab"})
+	d, derr := in.Dump()
+	in.S.ShutDown()
+	if derr != nil || r1.Kind != "ok" || r2.Kind != "ok" {
+		return
+	}
+	files2 := map[string][]byte{}
+	for n, b := range readTree(filepath.Join(dir, "aof")) {
+		files2["aof/"+n] = b
+	}
+	q := &pRun{w: p.w, seq: s, states: []string{d}, prevSnap: -1, curSnap: -1}
+	q.seq.RestoreAdv = 0
+	im := &image{point: "boundary", op: last.op, now: last.now, files: files2, lo: 0, hi: 0, copyIdx: -1, prevSnap: -1, curSnap: -1, rewrites: last.rewrites}
+	if rewriteFirst {
+		im.rewrites++
+		q.states = append(q.states, dcopy)
+		im.copyIdx, im.copyNow = 1, copyNow
+	}
+	q.emit(fmt.Sprintf("%s.%d.%s", s.ID, last.op, tag), im, files2, "boundary")
 }
 
 // recrash: the server died at this point of a snapshot; it is restarted on what is on disk, takes a write and
